@@ -447,6 +447,7 @@ type GenCfg struct {
 	Garbage    int  // per mille of variable values that are arbitrary text
 	LeadSaves  bool // the script starts with one to three save statements
 	SmallPool  bool // only three account names: repetition within one source becomes the norm
+	NoWorldVars  bool // account variables are never bound to "world"
 	CallWeight   int  // weight of set_tx_meta / set_account_meta statements (default 18, sends weigh 70)
 	LiteralSaves bool // save statements use literal amounts and accounts only
 	OriginProb int    // n: one new variable in n gets an origin (default 4)
@@ -609,6 +610,9 @@ func (g *Gen) rawValue(typ string) string {
 	case "account":
 		if g.cfg.Hostile > 0 && g.r.Intn(1000) < g.cfg.Hostile {
 			return g.r.Pick([]string{"", "<kept>", "a b", "@a", "a:", ":a", "a::b", "é", "a\n", "world ", "-"})
+		}
+		if g.cfg.NoWorldVars {
+			return g.r.Pick(accountPool)
 		}
 		return g.account()
 	case "asset":
